@@ -35,12 +35,15 @@ Proof.
       * exists nf. split; [exact Efl|]. intros Hall g [<-|Hg] Hid; [congruence|auto].
     + destruct (IH _ _ _ _ H) as (A & B & nf & Efl & C). split; [|split].
       * intros n Hn. apply A. rewrite field_named_app, Hn. reflexivity.
-      * intros g [<-|Hg] Hid; [|auto]. apply A. rewrite field_named_app. rewrite (field_named_In g [g] (or_introl eq_refl)). apply orb_true_r.
+      * intros g [<-|Hg] Hid; [|auto]. apply A. rewrite field_named_app. rewrite (field_named_In f [f] (or_introl eq_refl)). apply orb_true_r.
       * exists (field_named (f_name f) result :: nf). split; [rewrite Efl, <- app_assoc; reflexivity|].
         cbn [forallb]. intros Hall. apply andb_prop in Hall as [Hb Hall]. intros g [<-|Hg] Hid; [exact Hb|].
         specialize (C Hall g Hg Hid). rewrite field_named_app in C. apply orb_prop in C as [C|C]; [exact C|].
         unfold field_named in C. cbn in C. rewrite orb_false_r in C. apply String.eqb_eq in C. now rewrite <- C.
 Qed.
+
+Lemma filter_true {A} (l : list A) : filter (fun _ => true) l = l.
+Proof. induction l as [|x t IH]; cbn; [reflexivity|now rewrite IH]. Qed.
 
 (* mergeCustomObjectFields keeps every field name of both declarations (away from Query, `id` and built-ins) *)
 Lemma mcf_names a b fs : mcf a b = inr fs -> d_name a <> "Query" ->
@@ -49,8 +52,7 @@ Lemma mcf_names a b fs : mcf a b = inr fs -> d_name a <> "Query" ->
 Proof.
   unfold mcf. intros H Hq n Hid Hb Hn.
   rewrite (proj2 (String.eqb_neq _ _) Hq) in H. cbn [andb negb] in H.
-  assert (E0 : filter (fun _ : field => true) (d_fields a) = d_fields a) by (induction (d_fields a) as [|x t IH]; cbn; [reflexivity|now rewrite IH]).
-  rewrite E0 in H.
+  rewrite filter_true in H.
   set (mf := filter (fun f => negb (is_builtin (f_name f))) (d_fields b)) in *.
   destruct (overlap_scan mf (d_fields a) []) as [res fl] eqn:Es.
   destruct (scan_names _ _ _ _ _ Es) as (A & B & nf & Efl & C). cbn [app] in Efl. subst nf.
@@ -77,7 +79,7 @@ Proof.
     + destruct (IH _ _ H) as [A B]. split; [exact A|]. intros g [<-|Hg] Hb Hn; [rewrite Hb, Hn in E; discriminate|auto].
     + destruct (field_named (f_name f) fields); [discriminate|]. destruct (IH _ _ H) as [A B]. split.
       * intros n Hn. apply A. rewrite field_named_app, Hn. reflexivity.
-      * intros g [<-|Hg] Hb Hn; [|auto]. apply A. rewrite field_named_app, (field_named_In g [g] (or_introl eq_refl)). apply orb_true_r.
+      * intros g [<-|Hg] Hb Hn; [|auto]. apply A. rewrite field_named_app, (field_named_In f [f] (or_introl eq_refl)). apply orb_true_r.
 Qed.
 
 Definition fielded_kind (k : kind) : Prop := k = KObject \/ k = KInterface \/ k = KInput.
@@ -143,8 +145,8 @@ Proof.
     + exists D0. auto.
     + exists D. split; [reflexivity|].
       destruct (put_kind _ _ _ Md) as (K1 & _ & _).
-      eapply put_names; eauto.
-      * rewrite K1, <- (Hkind Hnode). exact Hk.
+      assert (Hk' : fielded_kind (d_kind nvb)) by (rewrite K1, <- (Hkind Hnode); exact Hk).
+      apply (put_names D0 nvb D Md Hk' n Hid Hbn).
       * rewrite Hnm. intros Hrt. now apply Hacc.
       * rewrite Hn0. apply orb_true_r.
     + exfalso. eapply (merge_no_fail acc s res nvb D0 e); eauto. now rewrite Hnm.
@@ -157,7 +159,7 @@ Proof.
       destruct Hk as [K|[K|K]]; rewrite K in Md;
         (destruct (negb (Bool.eqb (implements_node d) (implements_node va))); [discriminate|];
          destruct (if is_root (d_name d) then merge_root d va else merge_custom d va); discriminate).
-    + exists D. split; [reflexivity|]. eapply put_names; eauto.
+    + exists D. split; [reflexivity|]. apply (put_names va d D Md Hk n Hid Hbn).
       * intros Hrt. now apply Hacc.
       * rewrite Hn. reflexivity.
     + exfalso. eapply (merge_no_fail acc s res d va e); eauto.
